@@ -6,6 +6,13 @@ S=$1; shift
 WT=/tmp/seed-$S; OUT=/tmp/seed-out/$S
 export GOFLAGS=-mod=mod GOPROXY=off
 cd $WT || exit 2
+# bring the worktree to /repo's current HEAD, keeping the seeded change
+HEADNOW=$(git -C /repo rev-parse HEAD)
+if [ "$(git rev-parse HEAD)" != "$HEADNOW" ]; then
+  git diff > /tmp/seed-out/$S.rebase.diff
+  git apply -R /tmp/seed-out/$S.rebase.diff && git checkout -q --detach $HEADNOW && git apply /tmp/seed-out/$S.rebase.diff || { echo "REBASE FAILED"; exit 2; }
+  echo "== worktree moved to $HEADNOW"
+fi
 RUN=$(cat $OUT/demo/run.txt | head -1)
 echo "== demo WITH change: $RUN"
 ( eval "$RUN" ) > /tmp/seed-out/$S.with.log 2>&1; W=$?
